@@ -34,6 +34,13 @@ func (w *zzClient) commit(c int) {
 	}
 }
 
+// Flush commits the header, as net/http's response writer does.
+func (w *zzClient) Flush() {
+	if w.status == 0 {
+		w.commit(200)
+	}
+}
+
 // Sent is the header the client received.
 func (w *zzClient) Sent() http.Header {
 	if w.sent == nil {
@@ -82,6 +89,7 @@ type zzInnerResp struct {
 	status   int
 	chunks   [][]byte
 	explicit bool
+	flushes  bool // Flush between the explicit status and the first body byte (event streams, long polls)
 	copies   bool // body sent with io.Copy from a plain reader (file server, ServeContent, fastcgi): uses the writer's ReadFrom if it has one
 }
 
@@ -103,6 +111,9 @@ func zzDrawInner() zzInnerResp {
 	}
 	if n > 0 {
 		b.copies = verifrt.Bool("body-sent-with-io-copy")
+	}
+	if b.explicit && n > 0 {
+		b.flushes = verifrt.Bool("flush-after-the-status")
 	}
 	return b
 }
@@ -132,6 +143,11 @@ func (h zzInner) ServeHTTP(w http.ResponseWriter, r *http.Request) (int, error) 
 	}
 	if b.explicit {
 		w.WriteHeader(b.status)
+		if b.flushes {
+			if f, ok := w.(http.Flusher); ok {
+				f.Flush()
+			}
+		}
 	}
 	for _, c := range b.chunks {
 		if b.copies {
